@@ -580,7 +580,18 @@ class SR(object):
         return sym_abs(self)
 
     def __mod__(self, o):
-        raise SymUnsupported('mod on a symbolic real')
+        # x % m for a concrete positive modulus: x - m*floor(x/m); floor forks over the feasible integers (Python/NumPy
+        # semantics for m > 0: the result has the sign of m)
+        if isinstance(o, SR):
+            if not o.is_const():
+                raise SymUnsupported('mod with a symbolic modulus')
+            o = float(o.const_value())
+        if isinstance(o, (bool, np.bool_)) or not isinstance(o, (int, float, np.integer, np.floating)) or o <= 0:
+            raise SymUnsupported('mod on a symbolic real with modulus %r' % (o,))
+        if self.is_const():
+            return float(self.const_value()) % o
+        k = sym_floor(self * (1.0 / o) if (1.0 / o) * o == 1.0 else self / o)
+        return self - k * o
 
     # -- comparisons --------------------------------------------------------------
     def _cmp(self, o, op, zop):
